@@ -40,12 +40,12 @@ def Entry.stable (e : Entry) : Core × List String := (e.core, e.required)
 def lookS (w : World) (d : ClassId) : Option (Core × List String) := (alookup d w.classes).map Entry.stable
 
 /-- keys the serializer of a class emits when built from the class's own mapper -/
-def canonKeys (e : Entry) : List String := (fnames e.core.fields).map (mappedKey (mapperOf e))
+def canonKeys (e : Entry) : List String := (fnames e.core.fields).map (mappedKey (mapperOf e false))
 
 structure Good (cfg : Config) (W : List (String × TypeId)) (w : World) : Prop where
   reg : ∀ p ∈ w.wrappers, ∃ n, p.1 = wkey cfg n p.2 ∧ (n, p.2) ∈ W
-  mapper : ∀ p ∈ w.mapperCache, ∃ c e, alookup c w.classes = some e ∧ p.1 = CKey.id c ∧ p.2 = mapperOf e
-  simpl : ∀ p ∈ w.simplicityCache, ∃ c e, alookup c w.classes = some e ∧ p.1 = CKey.id c ∧ p.2 = e.core.simple
+  mapper : ∀ p ∈ w.mapperCache, ∃ c e b, alookup c w.classes = some e ∧ p.1 = CKey.id c b ∧ p.2 = mapperOf e b
+  simpl : ∀ p ∈ w.simplicityCache, ∃ c e, alookup c w.classes = some e ∧ p.1 = CKey.id c false ∧ p.2 = e.core.simple
   ser : ∀ c e, alookup c w.classes = some e → ∀ s, e.serializer = some s → s = canonKeys e
 
 theorem good_initial (cfg : Config) (W : List (String × TypeId)) : Good cfg W World.initial :=
@@ -53,23 +53,24 @@ theorem good_initial (cfg : Config) (W : List (String × TypeId)) : Good cfg W W
    by intro c e h; simp [World.initial, alookup] at h⟩
 
 theorem cachesById_iff (cfg : Config) :
-    cfg.cachesById = true ↔ cfg.mapperByName = false ∧ cfg.simplicityByName = false ∧ cfg.serializerOnBase = false := by
+    cfg.cachesById = true ↔ cfg.mapperByName = false ∧ cfg.simplicityByName = false ∧ cfg.serializerOnBase = false
+      ∧ cfg.mapperDropsCamel = false := by
   cases cfg with
-  | mk a b c d e => cases b <;> cases c <;> cases e <;> simp [Config.cachesById]
+  | mk a b b2 c d e => cases b <;> cases b2 <;> cases c <;> cases e <;> simp [Config.cachesById]
 
 /-! ### a coherent cache is invisible -/
 
-theorem mkey_id {cfg : Config} (hc : cfg.cachesById = true) (c : ClassId) (e : Entry) :
-    mkey cfg c e = CKey.id c := by
-  simp [mkey, ((cachesById_iff cfg).1 hc).1]
+theorem mkey_id {cfg : Config} (hc : cfg.cachesById = true) (c : ClassId) (e : Entry) (b : Bool) :
+    mkey cfg c e b = CKey.id c b := by
+  simp [mkey, ((cachesById_iff cfg).1 hc).1, ((cachesById_iff cfg).1 hc).2.2.2]
 
 theorem skey_id {cfg : Config} (hc : cfg.cachesById = true) (c : ClassId) (e : Entry) :
-    skey cfg c e = CKey.id c := by
+    skey cfg c e = CKey.id c false := by
   simp [skey, ((cachesById_iff cfg).1 hc).2.1]
 
 theorem installTarget_self {cfg : Config} (hc : cfg.cachesById = true) (c : ClassId) (e : Entry) :
     installTarget cfg c e = c := by
-  simp [installTarget, ((cachesById_iff cfg).1 hc).2.2]
+  simp [installTarget, ((cachesById_iff cfg).1 hc).2.2.1]
 
 /-- class `c` is defined in `w` with the same definition-time core as `e` -/
 def Has (w : World) (c : ClassId) (e : Entry) : Prop := ∃ e0, alookup c w.classes = some e0 ∧ e0.core = e.core
@@ -77,18 +78,18 @@ def Has (w : World) (c : ClassId) (e : Entry) : Prop := ∃ e0, alookup c w.clas
 theorem has_self {w : World} {c : ClassId} {e : Entry} (hl : alookup c w.classes = some e) : Has w c e :=
   ⟨e, hl, rfl⟩
 
-theorem mapperOf_core {e e' : Entry} (h : e'.core = e.core) : mapperOf e' = mapperOf e := by
+theorem mapperOf_core {e e' : Entry} (h : e'.core = e.core) (b : Bool) : mapperOf e' b = mapperOf e b := by
   unfold mapperOf; rw [h]
 
 theorem serMapper_eq' {cfg : Config} {W} {w : World} (hc : cfg.cachesById = true) (g : Good cfg W w)
-    {c : ClassId} {e : Entry} (hh : Has w c e) : serMapper cfg w c e = mapperOf e := by
+    {c : ClassId} {e : Entry} (hh : Has w c e) (b : Bool) : serMapper cfg w c e b = mapperOf e b := by
   obtain ⟨e0, hl, hcore⟩ := hh
   unfold serMapper
   rw [mkey_id hc]
-  cases hk : alookup (CKey.id c) w.mapperCache with
+  cases hk : alookup (CKey.id c b) w.mapperCache with
   | none => rfl
   | some m =>
-    obtain ⟨c', e', hl', hkey, hval⟩ := g.mapper _ (alookup_mem hk)
+    obtain ⟨c', e', b', hl', hkey, hval⟩ := g.mapper _ (alookup_mem hk)
     simp only at hkey hval
     cases hkey
     rw [hl] at hl'
@@ -96,14 +97,15 @@ theorem serMapper_eq' {cfg : Config} {W} {w : World} (hc : cfg.cachesById = true
     simp [hval, mapperOf_core hcore]
 
 theorem serMapper_eq {cfg : Config} {W} {w : World} (hc : cfg.cachesById = true) (g : Good cfg W w)
-    {c : ClassId} {e : Entry} (hl : alookup c w.classes = some e) : serMapper cfg w c e = mapperOf e :=
-  serMapper_eq' hc g (has_self hl)
+    {c : ClassId} {e : Entry} (hl : alookup c w.classes = some e) (b : Bool) :
+    serMapper cfg w c e b = mapperOf e b :=
+  serMapper_eq' hc g (has_self hl) b
 
 theorem trustedOf_eq {cfg : Config} {W} {w : World} (hc : cfg.cachesById = true) (g : Good cfg W w)
     {c : ClassId} {e : Entry} (hl : alookup c w.classes = some e) : trustedOf cfg w c e = e.core.simple := by
   unfold trustedOf
   rw [skey_id hc]
-  cases hk : alookup (CKey.id c) w.simplicityCache with
+  cases hk : alookup (CKey.id c false) w.simplicityCache with
   | none => rfl
   | some m =>
     obtain ⟨c', e', hl', hkey, hval⟩ := g.simpl _ (alookup_mem hk)
@@ -123,6 +125,7 @@ def idealBehaviour (flags : Flags) (core : Core) (required : List String) : Beha
   compact := flags.compact
   failFast := flags.failFast
   serMapper := core.fields.map fun f => (f.name, f.serKey)
+  serMapperCamel := core.fields.map fun f => (f.name, f.camelKey)
   fastKeys := if core.src.fast then
       some ((fnames core.fields).map (mappedKey (core.fields.map fun f => (f.name, f.serKey)))) else none
   trusted := core.simple
@@ -132,10 +135,11 @@ def idealBehaviour (flags : Flags) (core : Core) (required : List String) : Beha
 theorem behaviourOf_eq_ideal {cfg : Config} {W} {w : World} (hc : cfg.cachesById = true) (g : Good cfg W w)
     {c : ClassId} {e : Entry} (hl : alookup c w.classes = some e) :
     behaviourOf cfg w c e = idealBehaviour w.flags e.core e.required := by
-  have h1 := serMapper_eq hc g hl
+  have h1 := serMapper_eq hc g hl false
+  have h1c := serMapper_eq hc g hl true
   have h2 := trustedOf_eq hc g hl
   unfold behaviourOf idealBehaviour
-  simp only [h1, h2, extrasOf, fastKeysNow, mapperOf]
+  simp only [h1, h1c, h2, extrasOf, fastKeysNow, mapperOf, Bool.false_eq_true, if_false, if_true]
   congr 1
   cases hs : e.serializer with
   | none => simp
@@ -188,9 +192,9 @@ theorem has_of_pres {cfg W} {w w2 : World} {c : ClassId} {e : Entry} (h : Pres c
     exact ⟨e2, hl2, this.1.trans hcore⟩
 
 theorem pres_fillMapper {cfg W} {w : World} (hc : cfg.cachesById = true) (g : Good cfg W w)
-    {c : ClassId} {e : Entry} (hh : Has w c e) : Pres cfg W w (fillMapper cfg w c e) := by
+    {c : ClassId} {e : Entry} (hh : Has w c e) (b : Bool := false) : Pres cfg W w (fillMapper cfg w c e b) := by
   unfold fillMapper
-  cases hk : alookup (mkey cfg c e) w.mapperCache with
+  cases hk : alookup (mkey cfg c e b) w.mapperCache with
   | some _ => exact pres_refl g
   | none =>
     refine ⟨⟨g.reg, ?_, g.simpl, g.ser⟩, fun _ => rfl, rfl⟩
@@ -198,7 +202,7 @@ theorem pres_fillMapper {cfg W} {w : World} (hc : cfg.cachesById = true) (g : Go
     simp only [List.mem_cons] at hp
     rcases hp with rfl | hp
     · obtain ⟨e0, hl, hcore⟩ := hh
-      exact ⟨c, e0, hl, mkey_id hc c e, (mapperOf_core hcore).symm⟩
+      exact ⟨c, e0, b, hl, mkey_id hc c e b, (mapperOf_core hcore b).symm⟩
     · exact g.mapper p hp
 
 theorem pres_fillSimplicity {cfg W} {w : World} (hc : cfg.cachesById = true) (g : Good cfg W w)
@@ -227,12 +231,12 @@ theorem pres_setEntry {cfg W} {w : World} (g : Good cfg W w) {c : ClassId} {e e'
     simpa [Entry.stable] using this
   refine ⟨⟨g.reg, ?_, ?_, ?_⟩, ?_, rfl⟩
   · intro p hp
-    obtain ⟨c0, e0, hl0, hk, hv⟩ := g.mapper p hp
+    obtain ⟨c0, e0, b0, hl0, hk, hv⟩ := g.mapper p hp
     by_cases h : c = c0
     · subst h
       rw [hl] at hl0; cases hl0
-      exact ⟨c, e', alookup_cons_eq _ _ _, hk, hv.trans (mapperOf_core hcore).symm⟩
-    · exact ⟨c0, e0, (alookup_cons_ne _ _ h).trans hl0, hk, hv⟩
+      exact ⟨c, e', b0, alookup_cons_eq _ _ _, hk, hv.trans (mapperOf_core hcore b0).symm⟩
+    · exact ⟨c0, e0, b0, (alookup_cons_ne _ _ h).trans hl0, hk, hv⟩
   · intro p hp
     obtain ⟨c0, e0, hl0, hk, hv⟩ := g.simpl p hp
     by_cases h : c = c0
@@ -273,11 +277,11 @@ theorem pres_installW {cfg W} {w : World} (hc : cfg.cachesById = true) (g : Good
     intro s hs
     simp only [Option.some.injEq] at hs
     subst hs
-    have hm := serMapper_eq' hc p1.1 (⟨e1, hl1, hcore1⟩ : Has (fillMapper cfg w c e) c e)
+    have hm := serMapper_eq' hc p1.1 (⟨e1, hl1, hcore1⟩ : Has (fillMapper cfg w c e) c e) false
     unfold fastKeysNow canonKeys
     simp only [hm]
-    have : mapperOf { e1 with serializer := some ((fnames e.core.fields).map (mappedKey (mapperOf e))), createdFast := true }
-        = mapperOf e := mapperOf_core hcore1
+    have : mapperOf { e1 with serializer := some ((fnames e.core.fields).map (mappedKey (mapperOf e false))), createdFast := true } false
+        = mapperOf e false := mapperOf_core hcore1 false
     rw [this]
     simp [hcore1]
   · simp only [hf]
@@ -301,7 +305,7 @@ theorem pres_constructW {cfg W} {w : World} (hc : cfg.cachesById = true) (g : Go
 theorem pres_schemaW {cfg W} {w : World} (hc : cfg.cachesById = true) (g : Good cfg W w)
     {c : ClassId} {e : Entry} (hl : alookup c w.classes = some e)
     (hq : cfg.schemaWritesRequired = false ∨
-      schemaRequiredOf (serMapper cfg (fillMapper cfg w c e) c e) (extrasOf w e) e.core.fields e.required = e.required) :
+      schemaRequiredOf (serMapper cfg (fillMapper cfg w c e) c e false) (extrasOf w e) e.core.fields e.required = e.required) :
     Pres cfg W w (schemaW cfg w c e).1 := by
   have p1 := pres_fillMapper hc g (has_self hl)
   unfold schemaW
@@ -314,7 +318,7 @@ theorem pres_schemaW {cfg W} {w : World} (hc : cfg.cachesById = true) (g : Good 
 theorem quiet_toSchema {cfg : Config} {w : World} {c : ClassId} {e : Entry}
     (hl : alookup c w.classes = some e) (hq : quietStep cfg w (.toSchema c) = true) :
     cfg.schemaWritesRequired = false ∨
-      schemaRequiredOf (serMapper cfg (fillMapper cfg w c e) c e) (extrasOf w e) e.core.fields e.required = e.required := by
+      schemaRequiredOf (serMapper cfg (fillMapper cfg w c e) c e false) (extrasOf w e) e.core.fields e.required = e.required := by
   unfold quietStep at hq
   simp only [hl, Bool.or_eq_true, Bool.not_eq_true', Bool.and_eq_true, beq_iff_eq] at hq
   rcases hq with hq | hq
@@ -347,13 +351,13 @@ theorem pres_step_use {cfg W} {w : World} (hc : cfg.cachesById = true) (g : Good
     refine withClass_fst (pres_refl g) fun e hl => ?_
     have p1 := pres_fillSimplicity hc g (has_self hl)
     exact pres_trans p1 (pres_constructW hc p1.1 (has_of_pres p1 (has_self hl)) kw)
-  | serialize c kw =>
+  | serialize c kw camel =>
     simp only [stepW]
     refine withClass_fst (pres_refl g) fun e hl => ?_
     have p1 := pres_constructW hc g (has_self hl) kw
     simp only
     split
-    · exact pres_trans p1 (pres_fillMapper hc p1.1 (has_of_pres p1 (has_self hl)))
+    · exact pres_trans p1 (pres_fillMapper hc p1.1 (has_of_pres p1 (has_self hl)) camel)
     · exact p1
   | createSerializer c =>
     simp only [stepW]
@@ -387,6 +391,7 @@ theorem resolveField_own {cfg : Config} {W} (hW : cfg.wrapperByName = true → N
   cases hk : f.kind with
   | prim tag => exact ⟨rfl, hr⟩
   | ref c => exact ⟨rfl, hr⟩
+  | refs cs => exact ⟨rfl, hr⟩
   | wrap n t =>
     have hin := hf n t hk
     cases hl : alookup (wkey cfg n t) reg with
@@ -585,8 +590,8 @@ theorem good_define {cfg : Config} {W} (hW : cfg.wrapperByName = true → NoClas
     refine ⟨?_, ?_, ?_, ?_⟩
     · exact (resolveFields_own hW src.fields w.wrappers g.reg hsub).2
     · intro p hp
-      obtain ⟨c0, e0, hl0, hk, hv⟩ := g.mapper p hp
-      exact ⟨c0, e0, (alookup_cons_ne _ _ (hne c0 e0 hl0)).trans hl0, hk, hv⟩
+      obtain ⟨c0, e0, b0, hl0, hk, hv⟩ := g.mapper p hp
+      exact ⟨c0, e0, b0, (alookup_cons_ne _ _ (hne c0 e0 hl0)).trans hl0, hk, hv⟩
     · intro p hp
       obtain ⟨c0, e0, hl0, hk, hv⟩ := g.simpl p hp
       exact ⟨c0, e0, (alookup_cons_ne _ _ (hne c0 e0 hl0)).trans hl0, hk, hv⟩
@@ -633,15 +638,16 @@ theorem lookS_cases {w w' : World} {d : ClassId} (h : lookS w d = lookS w' d) :
       exact Or.inr ⟨e, e', rfl, rfl, h⟩
 
 theorem fieldSimple_congr {w w' : World} {T : ClassId → Bool} (hst : ∀ d, T d = true → lookS w d = lookS w' d)
-    (f : FieldSpec) (hf : ∀ r, f.kind = .ref r → T r = true) :
+    (f : FieldSpec) (hf : ∀ r ∈ kindRefs f.kind, T r = true) :
     fieldSimple w.classes f = fieldSimple w'.classes f := by
   unfold fieldSimple
   cases hk : f.kind with
   | prim _ => rfl
   | wrap _ _ => rfl
+  | refs _ => rfl
   | ref r =>
     simp only
-    rcases lookS_cases (hst r (hf r hk)) with ⟨h1, h2⟩ | ⟨e, e', h1, h2, h3⟩
+    rcases lookS_cases (hst r (hf r (by simp [hk, kindRefs]))) with ⟨h1, h2⟩ | ⟨e, e', h1, h2, h3⟩
     · rw [h1, h2]
     · rw [h1, h2]
       simp only [(stable_eq h3).1]
@@ -654,19 +660,16 @@ theorem all_congr_mem {α : Type} (p q : α → Bool) : ∀ (l : List α), (∀ 
 
 theorem refsDefined_congr {w w' : World} {T : ClassId → Bool}
     (hst : ∀ d, T d = true → lookS w d = lookS w' d) (fs : List FieldSpec)
-    (hrefs : ∀ f ∈ fs, ∀ r, f.kind = .ref r → T r = true) :
+    (hrefs : ∀ f ∈ fs, ∀ r ∈ kindRefs f.kind, T r = true) :
     refsDefined w.classes fs = refsDefined w'.classes fs := by
   unfold refsDefined
   apply all_congr_mem
   intro f hf
-  cases hk : f.kind with
-  | prim _ => rfl
-  | wrap _ _ => rfl
-  | ref r =>
-    simp only
-    rcases lookS_cases (hst r (hrefs f hf r hk)) with ⟨h1, h2⟩ | ⟨e, e', h1, h2, _⟩
-    · rw [h1, h2]
-    · rw [h1, h2]; rfl
+  apply all_congr_mem
+  intro r hr
+  rcases lookS_cases (hst r (hrefs f hf r hr)) with ⟨h1, h2⟩ | ⟨e, e', h1, h2, _⟩
+  · rw [h1, h2]
+  · rw [h1, h2]; rfl
 
 theorem lookupParent_congr {w w' : World} {T : ClassId → Bool}
     (hst : ∀ d, T d = true → lookS w d = lookS w' d) (parent : Option Parent)
@@ -686,18 +689,18 @@ theorem deps_parent {src : ClassSrc} {T : ClassId → Bool} (h : src.deps.all T 
   simp [ClassSrc.deps, hp]
 
 theorem deps_refs {src : ClassSrc} {T : ClassId → Bool} (h : src.deps.all T = true) :
-    ∀ f ∈ src.fields, ∀ r, f.kind = .ref r → T r = true := by
-  intro f hf r hk
+    ∀ f ∈ src.fields, ∀ r ∈ kindRefs f.kind, T r = true := by
+  intro f hf r hr
   apply List.all_eq_true.mp h
   unfold ClassSrc.deps
   apply List.mem_append_right
-  exact List.mem_filterMap.mpr ⟨f, hf, by simp [hk]⟩
+  exact List.mem_flatMap.mpr ⟨f, hf, hr⟩
 
 theorem own_congr {cfg : Config} {W} (hW : cfg.wrapperByName = true → NoClashW W) {w w' : World}
     (g : Good cfg W w) (g' : Good cfg W w') {T : ClassId → Bool}
     (hst : ∀ d, T d = true → lookS w d = lookS w' d) (src : ClassSrc)
     (hsub : ∀ q ∈ wrapsOfFields src.fields, q ∈ W)
-    (hrefs : ∀ f ∈ src.fields, ∀ r, f.kind = .ref r → T r = true) :
+    (hrefs : ∀ f ∈ src.fields, ∀ r ∈ kindRefs f.kind, T r = true) :
     ((resolveFields cfg w.wrappers src.fields).2).map (resolveSimple w.classes)
       = ((resolveFields cfg w'.wrappers src.fields).2).map (resolveSimple w'.classes) := by
   rw [(resolveFields_own hW src.fields w.wrappers g.reg hsub).1,
@@ -848,8 +851,8 @@ theorem sim_run {cfg : Config} (hc : cfg.cachesById = true) {W : List (String ×
       simp only [runW]
       exact sim_run hc hW T h _ _ (by simpa [wrapsOf] using hsub) hcl' hq.2
         (sim_pres_left s (pres_step_use hc s.good _ rfl hq.1))
-    | serialize c kw =>
-      have hsl : slice T (.serialize c kw :: h) = slice T h := by simp [slice, List.filter_cons, keepOp]
+    | serialize c kw camel =>
+      have hsl : slice T (.serialize c kw camel :: h) = slice T h := by simp [slice, List.filter_cons, keepOp]
       rw [hsl]
       simp only [runW]
       exact sim_run hc hW T h _ _ (by simpa [wrapsOf] using hsub) hcl' hq.2
